@@ -6,6 +6,7 @@ import (
 	"log/slog"
 	"net/http"
 	"reservoir/utils/syncmap"
+	"sync"
 	"time"
 )
 
@@ -26,6 +27,10 @@ const gcInterval = 15 * time.Minute
 var sessionStore *syncmap.SyncMap[string, *Session] = syncmap.New[string, *Session]()
 var gcRunning = false
 
+// Guards the ExpiresAt field of every session: concurrent requests that carry the same cookie
+// read and extend it, and the garbage collector reads it.
+var expiryMu sync.Mutex
+
 func StartSessionGC() {
 	if gcRunning {
 		return
@@ -37,7 +42,10 @@ func StartSessionGC() {
 		for range ticker.C {
 			now := time.Now()
 			for item := range sessionStore.Items() {
-				if item.ExpiresAt.Before(now) {
+				expiryMu.Lock()
+				expired := item.ExpiresAt.Before(now)
+				expiryMu.Unlock()
+				if expired {
 					sessionStore.Delete(item.ID)
 					slog.Debug("Deleted expired session", "session_id", item.ID)
 				}
@@ -53,6 +61,9 @@ func GetSession(sid string) (*Session, bool) {
 	if !ok {
 		return nil, false
 	}
+
+	expiryMu.Lock()
+	defer expiryMu.Unlock()
 
 	// An expired session is refused and dropped. Without this check the sliding extension below
 	// revived sessions that had expired but had not been collected by the GC yet.
@@ -100,7 +111,7 @@ func SessionFromRequest(r *http.Request) (sess *Session, ok bool) {
 	if !ok {
 		return nil, false
 	}
-	slog.Debug("Got session from cookie", "session_id", sid, "expires_at", sess.ExpiresAt)
+	slog.Debug("Got session from cookie", "session_id", sid)
 
 	return sess, true
 }
